@@ -96,7 +96,7 @@ Qed.
 Fixpoint divs_ok (ss : nat -> R) (e : expr R) : Prop :=
   match e with
   | EVar _ | ENum _ => True
-  | EShift _ e | ESs e | ENeg e | EPow e _ => divs_ok ss e
+  | EShift _ e | ESs e | ENeg e | EPow e _ | EApp _ _ e => divs_ok ss e
   | EAdd a b | ESub a b | EMul a b => divs_ok ss a /\ divs_ok ss b
   | EDiv a b => divs_ok ss a /\ divs_ok ss b /\ eval_ss ss b <> rO
   end.
@@ -116,7 +116,7 @@ Definition aval_ok (ss : nat -> R) (x0 : nat) (e : expr R) (a : aval R) : Prop :
 
 Theorem accum_correct ss x0 e : divs_ok ss e -> aval_ok ss x0 e (accum ss x0 e).
 Proof.
-  induction e as [x|c|k e IH|e IH|e IH|a IHa b IHb|a IHa b IHb|a IHa b IHb|a IHa b IHb|a IHa n]; cbn [SimpleBlk.accum divs_ok]; intros Hok;
+  induction e as [x|c|k e IH|e IH|e IH|a IHa b IHb|a IHa b IHb|a IHa b IHb|a IHa b IHb|a IHa n|g dg e IHg]; cbn [SimpleBlk.accum divs_ok]; intros Hok;
     try (specialize (IH Hok)); try (destruct Hok as [Hoka Hokb]; specialize (IHa Hoka); try (destruct Hokb as [Hokb Hnz]); specialize (IHb Hokb)).
   - (* variable *)
     destruct (Nat.eqb x x0) eqn:Ex; cbn [aval_ok SimpleBlk.eval_ss SimpleBlk.deriv]; rewrite ?Ex.
@@ -198,6 +198,11 @@ Proof.
       intros t s Ht Hs. rewrite A3, A1 by assumption.
       rewrite (sden_el_map (fun x => nat_r R rO rI radd (Datatypes.S n) *r rpow R rI rmul f n *r x) Sp t s (nat_r R rO rI radd (Datatypes.S n) *r rpow R rI rmul f n)) by (intros; ring).
       ring.
+  - (* applied function: chain rule with the supplied derivative *)
+    specialize (IHg Hok). destruct (accum ss x0 e) as [c|Sp f]; cbn [aval_ok SimpleBlk.eval_ss SimpleBlk.deriv] in *.
+    + destruct IHg as [A1 A2]. split; [rewrite A1; reflexivity | intros; rewrite A2; ring].
+    + destruct IHg as (A1 & A2 & A3). split; [rewrite A1; reflexivity|]. split; [apply wf_el_map; assumption|].
+      intros t s Ht Hs. rewrite A3, A1 by assumption. rewrite (sden_el_map (fun x => dg f *r x) Sp t s (dg f)) by (intros; ring). ring.
 Qed.
 
 (** an entry reported absent has derivative zero everywhere; a present entry is the derivative *)
@@ -222,7 +227,7 @@ Proof. induction e; cbn [SimpleBlk.eval_ssi SimpleBlk.eval_ss]; rewrite ?IHe, ?I
 (** zero shock: on the steady-state path (same initial steady state) every output path is its steady-state value *)
 Theorem ss_td_agree T ss env e t : (forall x u, env x u = ss x) -> eval_td T ss ss env e t = eval_ss ss e.
 Proof.
-  intros Henv. revert t. induction e as [x|c|k e IH|e IH|e IH|a IHa b IHb|a IHa b IHb|a IHa b IHb|a IHa b IHb|a IHa n]; intros t;
+  intros Henv. revert t. induction e as [x|c|k e IH|e IH|e IH|a IHa b IHb|a IHa b IHb|a IHa b IHb|a IHa b IHb|a IHa n|g dg e IHg]; intros t;
     cbn [SimpleBlk.eval_td SimpleBlk.eval_ss].
   - apply Henv.
   - reflexivity.
@@ -234,6 +239,7 @@ Proof.
   - rewrite IHa, IHb; reflexivity.
   - rewrite IHa, IHb; reflexivity.
   - rewrite IHa; reflexivity.
+  - rewrite IHg; reflexivity.
 Qed.
 End SimpleBlkProofs.
 
@@ -247,7 +253,7 @@ Fixpoint maxlead (e : expr R) : Z :=
   match e with
   | EVar _ | ENum _ | ESs _ => 0
   | EShift k e => Z.max 0 (k + maxlead e)
-  | ENeg e | EPow e _ => maxlead e
+  | ENeg e | EPow e _ | EApp _ _ e => maxlead e
   | EAdd a b | ESub a b | EMul a b | EDiv a b => Z.max (maxlead a) (maxlead b)
   end.
 Lemma maxlead_nonneg e : 0 <= maxlead e.
@@ -256,7 +262,7 @@ Proof. induction e; cbn [maxlead]; lia. Qed.
 Theorem finite_horizon_window_lemma T ss ssi env e : forall t, t + maxlead e < T ->
   eval_td R rI radd rmul rsub ropp rdiv (Some T) ss ssi env e t = eval_td R rI radd rmul rsub ropp rdiv None ss ssi env e t.
 Proof.
-  induction e as [x|c|k e IH|e IH|e IH|a IHa b IHb|a IHa b IHb|a IHa b IHb|a IHa b IHb|a IHa n]; intros t Ht; cbn [SimpleBlk.eval_td maxlead] in *;
+  induction e as [x|c|k e IH|e IH|e IH|a IHa b IHb|a IHa b IHb|a IHa b IHb|a IHa b IHb|a IHa n|g dg e IHg]; intros t Ht; cbn [SimpleBlk.eval_td maxlead] in *;
     try reflexivity.
   - pose proof (maxlead_nonneg e). destruct (t + k <? 0); [reflexivity|].
     replace (T <=? t + k) with false by lia. apply IH. lia.
@@ -266,5 +272,6 @@ Proof.
   - rewrite IHa, IHb by lia. reflexivity.
   - rewrite IHa, IHb by lia. reflexivity.
   - rewrite IHa by assumption. reflexivity.
+  - rewrite IHg by assumption. reflexivity.
 Qed.
 End Window.
